@@ -134,7 +134,9 @@ fn small_fv(t: &ATerm) -> bool {
 }
 
 pub fn gen_history(rng: &mut Rng) -> (Vec<Op>, &'static str) {
-    let stream = match rng.below(16) {
+    let stream = match rng.below(19) {
+        16 => "collapse",
+        17 | 18 => "shadow",
         15 => "latered",
         0..=2 => "mixed",
         3 => "symmetry",
@@ -166,6 +168,28 @@ pub fn gen_history(rng: &mut Rng) -> (Vec<Op>, &'static str) {
     }
     if stream == "inherit" || stream == "symred" || stream == "deepsym" || stream == "upmerge" {
         return (gen_structured(rng, stream), stream);
+    }
+    if stream == "tripledep" || stream == "collapse" || stream == "shadow" {
+        let raw = match stream {
+            "tripledep" => gen_tripledep(rng),
+            "collapse" => gen_collapse(rng),
+            _ => gen_shadow(rng),
+        };
+        let mut ops = Vec::new();
+        for o in raw {
+            let is_union = matches!(o, Op::Union(..));
+            if is_union && !matches!(ops.last(), Some(Op::Query)) {
+                ops.push(Op::Query);
+            }
+            ops.push(o);
+            if is_union {
+                ops.push(Op::Query);
+            }
+        }
+        if !matches!(ops.last(), Some(Op::Query)) {
+            ops.push(Op::Query);
+        }
+        return (ops, stream);
     }
     let nfree = rng.range(2, 4);
     let mut terms: Vec<ATerm> = Vec::new();
@@ -349,6 +373,89 @@ pub fn gen_history(rng: &mut Rng) -> (Vec<Op>, &'static str) {
         ops.push(Op::Query);
     }
     (ops, stream)
+}
+
+/// a parent that uses one child class three times; one argument of one occurrence becomes redundant in the parent's class
+/// only, then the child class becomes symmetric: re-processing the parent must find the redundancy *and* every argument flip
+pub fn gen_tripledep(rng: &mut Rng) -> Vec<Op> {
+    let t3 = |a: ATerm, b: ATerm, c: ATerm| ATerm { v: 17, fields: vec![CField::App, CField::App, CField::App], children: vec![a, b, c] };
+    let c = |x: u32, y: u32| leaf(7, &[x, y]);
+    let s: [u32; 6] = [4, 8, 12, 16, 20, 24];
+    let spare = 28u32;
+    let which = rng.below(3);
+    let parent = |sl: &[u32; 6]| t3(c(sl[0], sl[1]), c(sl[2], sl[3]), c(sl[4], sl[5]));
+    let mut s2 = s;
+    s2[2 * which + 1] = spare;
+    let mut ops = vec![Op::Add(parent(&s)), Op::Add(parent(&s2)), Op::Add(c(4, 8)), Op::Add(c(8, 4))];
+    // a flipped occurrence other than the one that lost its argument
+    let other = (which + 1 + rng.below(2)) % 3;
+    let mut s3 = s;
+    s3.swap(2 * other, 2 * other + 1);
+    ops.push(Op::Add(parent(&s3)));
+    if rng.chance(1, 2) {
+        let mut s4 = s;
+        let o2 = (0..3).find(|k| *k != which && *k != other).unwrap();
+        s4.swap(2 * o2, 2 * o2 + 1);
+        ops.push(Op::Add(parent(&s4)));
+    }
+    if rng.chance(3, 4) {
+        ops.push(Op::Union(0, 1));
+        ops.push(Op::Union(2, 3));
+    } else {
+        ops.push(Op::Union(2, 3));
+        ops.push(Op::Union(0, 1));
+    }
+    ops
+}
+
+/// two e-nodes of one class (from an explicit union) that collapse onto one shape with swapped slots when their children
+/// are united later: the collapse is where the class's symmetry has to be discovered
+pub fn gen_collapse(rng: &mut Rng) -> Vec<Op> {
+    let op = if rng.chance(1, 2) { 14 } else { 4 };
+    let (x, y, z) = (4u32, 8u32, 12u32);
+    let a = |s: u32| leaf(2, &[s]);
+    let b = |s: u32| leaf(10, &[s]);
+    let mut ops = vec![Op::Add(bin(op, a(x), b(y))), Op::Add(bin(op, b(y), a(x))), Op::Add(a(z)), Op::Add(b(z))];
+    if rng.chance(1, 2) {
+        ops.push(Op::Add(un(13, bin(op, a(x), b(y)))));
+    }
+    if rng.chance(3, 4) {
+        ops.push(Op::Union(0, 1));
+        ops.push(Op::Union(2, 3));
+    } else {
+        ops.push(Op::Union(2, 3));
+        ops.push(Op::Union(0, 1));
+    }
+    ops
+}
+
+/// `on`: a child *before* a binder in the same node; the binder re-uses the name of a slot that is free in that child
+pub fn gen_shadow(rng: &mut Rng) -> Vec<Op> {
+    let on = |c0: ATerm, x: u32, c1: ATerm| ATerm { v: 18, fields: vec![CField::App, CField::Bind(x, Box::new(CField::App))], children: vec![c0, c1] };
+    let var = |s: u32| leaf(2, &[s]);
+    let names: [u32; 4] = [4, 8, 2, 6];
+    let (p, z) = (names[rng.below(4)], 10u32);
+    let mut ops = vec![Op::Add(on(var(p), z, var(z)))];
+    let mut k = rng.range(2, 3);
+    let mut used: Vec<u32> = Vec::new();
+    while k > 0 {
+        let x = names[rng.below(4)];
+        if used.contains(&x) {
+            continue;
+        }
+        used.push(x);
+        ops.push(Op::Add(on(var(x), x, var(x))));
+        k -= 1;
+    }
+    if rng.chance(1, 2) {
+        // the body mentions the outer free slot as well
+        let x = names[rng.below(4)];
+        ops.push(Op::Add(on(var(x), x, bin(14, var(x), var(p)))));
+    }
+    if rng.chance(1, 3) {
+        ops.push(Op::Union(0, 1));
+    }
+    ops
 }
 
 fn leaf(v: usize, slots: &[u32]) -> ATerm {
